@@ -505,6 +505,13 @@ func ChildCrash(specPath string) int {
 			return 5
 		}
 		sl.line("CLOSED")
+		if im != nil {
+			sl.mu.Lock()
+			if err := im.materialise([]string{opt.Dir}, filepath.Join(s.ImageDir, "0")); err == nil {
+				_, _ = sl.f.Write([]byte("G 0 after-close\n"))
+			}
+			sl.mu.Unlock()
+		}
 		return 0
 	}
 	die()
@@ -525,11 +532,12 @@ type sideInfo struct {
 	closed           bool
 	images           []int64 // image event numbers in log order
 	ackedBeforeImage map[int64]map[string]bool
+	imageClass       map[int64]string
 	fatal            string
 }
 
 func parseSideLog(path string) *sideInfo {
-	si := &sideInfo{issued: map[string]bool{}, acked: map[string]bool{}, rejected: map[string]string{}, ts: map[string]uint64{}, ackedBeforeImage: map[int64]map[string]bool{}}
+	si := &sideInfo{issued: map[string]bool{}, acked: map[string]bool{}, rejected: map[string]string{}, ts: map[string]uint64{}, ackedBeforeImage: map[int64]map[string]bool{}, imageClass: map[int64]string{}}
 	b, err := os.ReadFile(path)
 	if err != nil {
 		return si
@@ -578,6 +586,9 @@ func parseSideLog(path string) *sideInfo {
 		case "G":
 			n, _ := strconv.ParseInt(f[1], 10, 64)
 			si.images = append(si.images, n)
+			if len(f) >= 3 {
+				si.imageClass[n] = f[2]
+			}
 			m := map[string]bool{}
 			for k := range si.acked {
 				m[k] = true
@@ -742,6 +753,25 @@ func writeSpec(s *CrashSpec, path string) {
 // verifyRecovered runs the verifier child on spec.Dir and applies the C08 oracle.
 // acked: transactions that must be present. Returns false if the verdict could not be reached.
 func verifyRecovered(c *core.Ctx, sig string, s *CrashSpec, specPath string, si *sideInfo, acked map[string]bool, wit map[string]any) bool {
+	return verifyRecoveredOpts(c, sig, s, specPath, si, acked, wit, verifyOpts{})
+}
+
+// verifyOpts tightens or relaxes the oracle for the torn-tail cases (C09).
+type verifyOpts struct {
+	exact         map[string]bool // the recovered set must be exactly this
+	subsetOf      map[string]bool // the recovered set must be a subset of this ...
+	maxMissing    int             // ... with at most this many members missing
+	valueErrorsOK bool            // a read that reports an error is acceptable (the value's record is damaged)
+	// value-log damage: badger deliberately returns an empty value and no error when a value's record
+	// cannot be read ("Don't return error if we cannot read the value. Just log the error."). That is
+	// not "the damaged record's contents returned as data", so it is accepted - but only for values
+	// whose record lies in the damaged part (by key when the file is plain, by count otherwise).
+	emptyOKKeys map[string]bool
+	maxEmpty    int
+	noBatchAck  bool
+}
+
+func verifyRecoveredOpts(c *core.Ctx, sig string, s *CrashSpec, specPath string, si *sideInfo, acked map[string]bool, wit map[string]any, vo verifyOpts) bool {
 	out, timedOut, _ := runChild(120*time.Second, nil, c.ID, "--child-verify", specPath)
 	if timedOut {
 		c.Inconclusive("verifier child timed out (" + fmt.Sprint(wit["case"]) + ")")
@@ -821,6 +851,34 @@ func verifyRecovered(c *core.Ctx, sig string, s *CrashSpec, specPath string, si 
 	}
 	sort.Slice(S, func(i, j int) bool { return S[i].ts < S[j].ts })
 	c.Count("crash.recovered_txns", int64(len(S)))
+	if vo.exact != nil {
+		for _, m := range S {
+			if !vo.exact[m.id] {
+				c.Violation(sig+"|recovered-a-record-after-the-damage", fmt.Sprintf("transaction %s (ts %d) is visible although its end marker is not wholly before the damaged offset", m.id, m.ts), w(map[string]any{"txn": m.id}))
+			}
+		}
+		for id := range vo.exact {
+			if !inS[id] {
+				c.Violation(sig+"|lost-an-intact-record", fmt.Sprintf("transaction %s lies wholly before the damaged offset (or in another file) but is not visible", id), w(map[string]any{"txn": id}))
+			}
+		}
+	}
+	if vo.subsetOf != nil {
+		missing := 0
+		for id := range vo.subsetOf {
+			if !inS[id] {
+				missing++
+			}
+		}
+		for _, m := range S {
+			if !vo.subsetOf[m.id] {
+				c.Violation(sig+"|recovered-a-record-after-the-damage", fmt.Sprintf("transaction %s is visible but was not in the undamaged image", m.id), w(nil))
+			}
+		}
+		if missing > vo.maxMissing {
+			c.Violation(sig+"|lost-an-intact-record", fmt.Sprintf("%d transactions of the undamaged image are missing, only %d end markers lie behind the damaged offset", missing, vo.maxMissing), w(nil))
+		}
+	}
 	// distinct timestamps
 	for i := 1; i < len(S); i++ {
 		if S[i].ts == S[i-1].ts {
@@ -874,6 +932,23 @@ func verifyRecovered(c *core.Ctx, sig string, s *CrashSpec, specPath string, si 
 		}
 	}
 	mism := 0
+	empties := 0
+	emptyOK := func(hk string, it dumpItem) bool {
+		if !vo.valueErrorsOK || it.Err != "" || it.Len != 0 {
+			return false
+		}
+		if vo.emptyOKKeys != nil && !vo.emptyOKKeys[hk] {
+			return false
+		}
+		empties++
+		c.Count("crash.values_lost_silently_accepted", 1)
+		return true
+	}
+	defer func() {
+		if vo.valueErrorsOK && empties > vo.maxEmpty {
+			c.Violation(sig+"|state|more-empty-values-than-damaged-records", fmt.Sprintf("%d values read back empty, only %d value-log records lie behind the damaged offset", empties, vo.maxEmpty), w(nil))
+		}
+	}()
 	for _, k := range keys {
 		hk := hex.EncodeToString(k)
 		e, has := want[hk]
@@ -887,8 +962,11 @@ func verifyRecovered(c *core.Ctx, sig string, s *CrashSpec, specPath string, si 
 			mism++
 			c.Violation(sig+"|state|missing-key", fmt.Sprintf("key %s written by recovered transaction %s (ts %d) is not visible: the transaction is partially visible", hk, e.id, e.ts), w(map[string]any{"key": hk, "txn": e.id}))
 		case has && !e.del && got:
-			if it.Err != "" {
+			if it.Err != "" && vo.valueErrorsOK {
+				c.Count("crash.value_read_errors_accepted", 1)
+			} else if it.Err != "" {
 				c.Violation(sig+"|state|value-read-error", fmt.Sprintf("key %s: %s", hk, it.Err), w(map[string]any{"key": hk}))
+			} else if it.Ver == e.ts && emptyOK(hk, it) {
 			} else if it.Tok != e.tok || it.Len != e.size || !it.OK || it.Ver != e.ts {
 				mism++
 				kind := "other-write"
@@ -916,7 +994,10 @@ func verifyRecovered(c *core.Ctx, sig string, s *CrashSpec, specPath string, si 
 						gap = true
 					}
 					present++
-					if it.Err != "" || it.Tok != o.Tok || it.Len != o.Size || !it.OK {
+					if it.Err != "" && vo.valueErrorsOK {
+						c.Count("crash.value_read_errors_accepted", 1)
+					} else if emptyOK(hex.EncodeToString(o.Key), it) {
+					} else if it.Err != "" || it.Tok != o.Tok || it.Len != o.Size || !it.OK {
 						c.Violation(sig+"|batch|damaged-value", fmt.Sprintf("batch %s entry %d: want %s len %d, got %s len %d err=%q", id, j, o.Tok, o.Size, it.Tok, it.Len, it.Err), w(nil))
 					}
 				}
